@@ -40,7 +40,7 @@ var c20Derived = map[string]bool{c20Medians: true, c20Strat: true}
 
 func init() {
 	register("C20", "other", "T7 Pairing (dirty flag), T4 GuardedBy, T6 WhoMayWrite, T2 Dominates (loop exit), AST provenance of index roles, T15 ConstRelation (go/constant), normalised comparators, polynomial normal form for Matrix.Row",
-		"Decides the shape the indexer's medians and metrics depend on. Dirty flag: every store into a source field of QuorumIndexer (globalMatrix, selfParentSeqs, validators, dagi, diffMetricFn; directly, through Matrix.Row, through a local alias or copy()) is followed by dirty = true on every path to return; the derived fields globalMedianSeqs and searchStrategy are written only by recacheState; every read of them elsewhere is reached only after recacheState ran (directly, or inside a helper method called on the same receiver whose every path to return runs recacheState or takes the dirty == false edge and does not dirty the state afterwards — an extracted `if h.dirty { h.recacheState() }`) or over the dirty == false edge, also after any dirtying statement of the same function; dirty is cleared only in recacheState, as its last effect, after the complete loop that stores a median for every validator index 0..validators.Len()-1 and after searchStrategy was replaced by a MetricStrategy over a fresh MetricFnCache of the indexer's own GetMetricOf; the constructor starts dirty. Index roles: ProcessEvent writes globalMatrix.Row(x)[y] = seqOf(vecClock.Get(x)) for every validator index x (full counted loop), with vecClock = dagi.GetMergedHighestBefore(event.ID()) and y = validators.GetIdx(event.Creator()), and selfParentSeqs[x] gets the same value only under the selfEvent parameter; Matrix.Row(i) is buffer[i*columns:(i+1)*columns] (polynomial identity) and NewMatrix sizes the buffer rows*cols; recacheState pairs Row(subject)[i] with GetWeightByIdx(i) for the same observer i over all observers, sorts by seq strictly descending, takes wmedian.Of(pairs, validators.Quorum()) of the freshly filled and sorted slice and stores its seq at globalMedianSeqs[subject]; wmedian.Of visits its values in slice order from the first (range, or for i := 0; i < len(values); i++), accumulates the current element's Weight() from zero and returns the current element exactly on the first accumulated weight >= stop, nothing else returns; the per-subject median computation, the store of the median, the strategy replacement and dirty = true may each live in a private helper method called on the same receiver (provenance is decided on the inlined view: a helper's parameters stand for the caller's argument expressions, so the helper may be handed the loop index, the subject's row globalMatrix.Row(subject) or validators.Len() read once into a local, and the comparison function may be a literal in place or one returned by a constructor that is handed the slice and only indexes it; neither recacheState nor the helper writes globalMatrix or validators; a helper counts as the store/assignment it performs on every path, and derived state may be written by a helper only if all its call sites are in recacheState); weightedSeq.Weight returns its weight field. seqOf returns Seq() unless IsForkDetected(), then the constant MaxUint32/2-1 = 2^31-2, and go/constant confirms sentinel >= K-1 where K is the constant of basiccheck's `Seq >= K` rejection (K = MaxInt32-1, so admissible Seq <= 2^31-3 < sentinel). GetMetricOf sums (from zero, += over the full validator loop) diffMetricFn called with, under the parameter names of DiffMetricFn, median = globalMedianSeqs[i], current = selfParentSeqs[i], update = seqOf(dagi.GetMergedHighestBefore(id).Get(i)), validatorIdx = i. NOT decided: numeric equality of the stored median with the definition over all inputs (it follows from the decided shape by the descending-prefix argument, which is not machine-checked), overflow of the Metric sum, staleness of a SearchStrategy value kept by a caller across ProcessEvent, mutation of the slices handed out by GetGlobalMatrix/GetSelfParentSeqs/GetGlobalMedianSeqs by callers, and that vecClock sequences of processed events respect the basiccheck bound (assumed).",
+		"Decides the shape the indexer's medians and metrics depend on. Dirty flag: every store into a source field of QuorumIndexer (globalMatrix, selfParentSeqs, validators, dagi, diffMetricFn; directly, through Matrix.Row, through a local alias or copy()) is followed by dirty = true on every path to return; the derived fields globalMedianSeqs and searchStrategy are written only by recacheState (the rebuilding method is located by its effect: the method of the indexer that clears dirty; it may be idempotent, i.e. return at once over the dirty == false edge, and may be named differently); a store made by a private accessor method of the indexer (unexported, never a method value, called only on the caller's receiver) counts as a store at each of its call sites; every read of them elsewhere is reached only after recacheState ran (directly, or inside a helper method called on the same receiver whose every path to return runs recacheState or takes the dirty == false edge and does not dirty the state afterwards — an extracted `if h.dirty { h.recacheState() }`) or over the dirty == false edge, also after any dirtying statement of the same function; dirty is cleared only in recacheState, as its last effect, after the complete loop that stores a median for every validator index 0..validators.Len()-1 and after searchStrategy was replaced by a MetricStrategy over a fresh MetricFnCache of the indexer's own GetMetricOf (the cache handed over as its bound GetMetricOf or as the object itself, through NewMetricStrategy, a literal or any constructor whose every return builds the strategy over its parameter); the constructor starts dirty. Index roles: ProcessEvent writes globalMatrix.Row(x)[y] = seqOf(vecClock.Get(x)) for every validator index x (full counted loop), with vecClock = dagi.GetMergedHighestBefore(event.ID()) and y = validators.GetIdx(event.Creator()), and selfParentSeqs[x] gets the same value only under the selfEvent parameter (either store may be made through a setter method whose only effect is that indexed store of its parameters); no return of ProcessEvent is reached without the complete store loop (every processed event overwrites its creator's column: latest processed event); Matrix.Row(i) is buffer[i*columns:(i+1)*columns] (polynomial identity) and NewMatrix sizes the buffer rows*cols; recacheState pairs Row(subject)[i] (read in place or through a getter method returning that element of its parameters) with GetWeightByIdx(i) for the same observer i over all observers, sorts by seq strictly descending, takes wmedian.Of(pairs, validators.Quorum()) of the freshly filled and sorted slice and stores its seq at globalMedianSeqs[subject]; wmedian.Of visits its values in slice order from the first (range, or for i := 0; i < len(values); i++), accumulates the current element's Weight() from zero and returns the current element exactly on the first accumulated weight >= stop, nothing else returns; the per-subject median computation, the store of the median, the strategy replacement and dirty = true may each live in a private helper method called on the same receiver (provenance is decided on the inlined view: a helper's parameters stand for the caller's argument expressions, so the helper may be handed the loop index, the subject's row globalMatrix.Row(subject) or validators.Len() read once into a local, and the comparison function may be a literal in place or one returned by a constructor that is handed the slice and only indexes it; neither recacheState nor the helper writes globalMatrix or validators; a helper counts as the store/assignment it performs on every path, and derived state may be written by a helper only if all its call sites are in recacheState); weightedSeq.Weight returns its weight field. seqOf returns Seq() unless IsForkDetected(), then the constant MaxUint32/2-1 = 2^31-2, and go/constant confirms sentinel >= K-1 where K is the constant of basiccheck's `Seq >= K` rejection (K = MaxInt32-1, so admissible Seq <= 2^31-3 < sentinel). GetMetricOf sums (from zero, += over the full validator loop) diffMetricFn called with, under the parameter names of DiffMetricFn, median = globalMedianSeqs[i], current = selfParentSeqs[i], update = seqOf(dagi.GetMergedHighestBefore(id).Get(i)), validatorIdx = i. NOT decided: numeric equality of the stored median with the definition over all inputs (it follows from the decided shape by the descending-prefix argument, which is not machine-checked), overflow of the Metric sum, staleness of a SearchStrategy value kept by a caller across ProcessEvent, mutation of the slices handed out by GetGlobalMatrix/GetSelfParentSeqs/GetGlobalMedianSeqs by callers, and that vecClock sequences of processed events respect the basiccheck bound (assumed).",
 		[]string{"only events accepted by eventcheck/basiccheck reach ProcessEvent (C13 bound on Seq)", "sort.Slice sorts by the given less function; pos.Validators.Quorum/GetIdx/GetWeightByIdx/Len are as documented (C11/C12)",
 			"callers do not write through the slices returned by the indexer's getters", "the indexer is used from one goroutine"},
 		runC20)
@@ -442,6 +442,7 @@ func c20DirtyClause(c *core.Ctx) {
 	}
 	stored := map[string]bool{} // source fields that are stored into somewhere (vacuity guard: one per role)
 	helpers := c20RecacheHelpers(c.P)
+	rec := c20RecacheFn(c.P)
 	for _, f := range c20PkgFuncs(c.P) {
 		who := short(f.Name)
 		for _, a := range assignsToField(f, c20Dirty) {
@@ -449,7 +450,7 @@ func c20DirtyClause(c *core.Ctx) {
 				c.Undecided(who+"|dirty assigned a non-constant", "T7", a.Stmt.Pos(), "the dirty flag is assigned a computed value")
 			}
 		}
-		if len(c20DirtyAssigns(f, false)) > 0 && f.Name != c20Recache {
+		if len(c20DirtyAssigns(f, false)) > 0 && f != rec {
 			c.Fail(who+"|clears dirty", "T6 WhoMayWrite", f.Pos(), "the dirty flag is cleared outside recacheState: stale medians/metrics can be served as current")
 		}
 		set := c20DirtySetSites(f) // dirty = true, directly or in a helper that always sets it
@@ -460,12 +461,13 @@ func c20DirtyClause(c *core.Ctx) {
 				clear = append(clear, cs.Pt)
 			}
 		}
-		for _, s := range c20Stores(f) {
+		_, private := c20PrivateSites(c.P, f)
+		for _, s := range c20StoresDeep(c.P, f, 2) {
 			switch {
 			case s.Field == c20Dirty:
 				continue
 			case c20Derived[s.Field]:
-				c.Check(f.Name == c20Recache || helpers[f], who+"|writes "+short(s.Field), "T6 WhoMayWrite", s.Pos, "derived state is written by recacheState (or by a private helper that only recacheState calls)", "derived state "+short(s.Field)+" is written outside recacheState: it no longer equals the function of the matrix that readers expect")
+				c.Check(f == rec || helpers[f], who+"|writes "+short(s.Field), "T6 WhoMayWrite", s.Pos, "derived state is written by recacheState (or by a private helper that only recacheState calls)", "derived state "+short(s.Field)+" is written outside recacheState: it no longer equals the function of the matrix that readers expect")
 				continue
 			}
 			stored[s.Field] = true
@@ -482,6 +484,12 @@ func c20DirtyClause(c *core.Ctx) {
 						}
 					}
 				}
+			}
+			if !ok && private && len(c20DirtyAssigns(f, true)) == 0 && len(c20DirtyAssigns(f, false)) == 0 {
+				// a private accessor of the indexer that does not touch the flag: it runs only as a part of its
+				// callers, where the call stands for the store and the same pairing is decided (c20StoresDeep)
+				c.Pass(who+"|store into "+short(s.Field)+" marks dirty", "T7 Pairing", "the store is made by a private method; every call site is followed by dirty = true (decided at the callers)")
+				continue
 			}
 			c.Check(ok, who+"|store into "+short(s.Field)+" marks dirty", "T7 Pairing", s.Pos, "every path from this store to return sets dirty = true",
 				"a store into "+short(s.Field)+" can return without dirty = true: medians and cached metrics computed from the old contents keep being served; path "+f.DescribePath(wit))
@@ -526,8 +534,9 @@ func c20DirtyClause(c *core.Ctx) {
 func c20Reads(c *core.Ctx) {
 	readFields := map[string]bool{}
 	helpers := c20RecacheHelpers(c.P)
+	rec := c20RecacheFn(c.P)
 	for _, f := range c20PkgFuncs(c.P) {
-		if f.Name == c20Recache || helpers[f] {
+		if f == rec || helpers[f] {
 			continue // recacheState and its private helpers work on the state being rebuilt
 		}
 		who := short(f.Name)
@@ -576,7 +585,7 @@ func c20Reads(c *core.Ctx) {
 // recacheState: covers every derived field, clears dirty last
 
 func c20RecacheClause(c *core.Ctx) {
-	f := c.Fn(c20Recache)
+	f := c20RecacheAnchor(c)
 	rets := f.ReturnPoints()
 	c.Need(len(rets) > 0, "recacheState returns")
 	clear := c20DirtyAssigns(f, false)
@@ -587,8 +596,12 @@ func c20RecacheClause(c *core.Ctx) {
 			derivedStores = append(derivedStores, s)
 		}
 	}
+	// the rebuild may be idempotent: a return over the dirty == false edge owes nothing (the state the
+	// readers see was rebuilt by the activation that cleared the flag)
+	clean := c19Edges(f, c20BoolFact(f, c20Dirty, false))
 	for _, rp := range rets {
-		ok, wit := f.MustPassBefore(clear, rp)
+		wit, found := core.PathQuery{F: f, From: f.Entry(), Target: core.PointSet(rp), Avoid: core.PointSet(clear...), AvoidEdge: clean}.Find()
+		ok := !found && rp != f.Entry()
 		c.Check(ok, "recacheState clears dirty on every return", "T2 Dominates", posOf(rp), "dirty = false dominates the return", "recacheState can return with dirty still set (recomputed on every read) or: "+f.DescribePath(wit))
 	}
 	// a statement of recacheState may live in a helper called on the same receiver: the call site then
@@ -659,18 +672,7 @@ func c20RecacheClause(c *core.Ctx) {
 	c.Check(okIdx && c20EveryIteration(f, medLoop, medPt), "a median is stored for the loop's validator in every iteration", "T7 Pairing", medPos, "globalMedianSeqs[i] is assigned on every path through the body", "an iteration can leave globalMedianSeqs[i] unassigned, or the store uses another index")
 	done, _ := loopDone(f, medLoop)
 	// searchStrategy replaced by a fresh cache over the indexer's own GetMetricOf
-	fresh := func(g *core.FuncInfo, a assignment) bool {
-		if ns := isCallTo(g, c19Resolve(g, a.RHS, a.Pt), c19AncPkg+".NewMetricStrategy"); ns != nil && len(ns.Args) == 1 {
-			if mv, isSel := ast.Unparen(ns.Args[0]).(*ast.SelectorExpr); isSel && g.P.ObjName(g.ObjOf(mv)) == c19AncPkg+".MetricCache.GetMetricOf" {
-				if nc := isCallTo(g, c19Resolve(g, mv.X, a.Pt), c19AncPkg+".NewMetricFnCache"); nc != nil && len(nc.Args) == 2 {
-					if src, isSel := ast.Unparen(nc.Args[0]).(*ast.SelectorExpr); isSel && g.P.ObjName(g.ObjOf(src)) == c20QiT+".GetMetricOf" && varOf(g, src.X) != nil && varOf(g, src.X) == g.Recv() {
-						return true
-					}
-				}
-			}
-		}
-		return false
-	}
+	fresh := c20FreshStrategy // c20_strategy.go
 	var stratPts []core.Point
 	checkStrat := func(g *core.FuncInfo) (pts []core.Point, all bool) {
 		all = true
@@ -700,10 +702,12 @@ func c20RecacheClause(c *core.Ctx) {
 		stratPts = append(stratPts, cs.Pt)
 	}
 	for _, rp := range rets {
-		ok1, _ := f.MustPassBefore(stratPts, rp)
+		_, skip1 := core.PathQuery{F: f, From: f.Entry(), Target: core.PointSet(rp), Avoid: core.PointSet(stratPts...), AvoidEdge: clean}.Find()
+		ok1 := !skip1 && len(stratPts) > 0 && rp != f.Entry()
 		ok2 := done != nil
-		if ok2 {
-			ok2, _ = mustPassBlockBefore(f, done, rp)
+		if ok2 && rp.B != done && f.Entry().B != done {
+			_, skip2 := core.PathQuery{F: f, From: f.Entry(), Target: core.PointSet(rp), AvoidEdge: func(b *cfg.Block, s int) bool { return clean(b, s) || b.Succs[s] == done }}.Find()
+			ok2 = !skip2
 		}
 		c.Check(ok1 && ok2, "every derived field recomputed before return", "T2 Dominates (loop exit)", posOf(rp), "the median loop's exit and the strategy replacement dominate the return", "recacheState can return (clean) without having recomputed the medians or replaced the metric cache")
 	}
@@ -711,6 +715,11 @@ func c20RecacheClause(c *core.Ctx) {
 
 // ---------------------------------------------------------------------------
 // ProcessEvent: index roles
+
+// posNode wraps a position as something with a Pos method.
+type posNode token.Pos
+
+func (p posNode) Pos() token.Pos { return token.Pos(p) }
 
 func c20Roles(c *core.Ctx) {
 	f := c.Fn(c20QiT + ".ProcessEvent")
@@ -725,31 +734,38 @@ func c20Roles(c *core.Ctx) {
 		return ok && varOf(f, sel.X) == pEvent
 	}
 	nM, nS := 0, 0
-	for _, a := range assignments(f) {
-		ix, ok := ast.Unparen(a.LHS).(*ast.IndexExpr)
-		if !ok {
-			continue
-		}
-		fld := c20QIField(f, a.LHS, 0)
-		if fld != c20Matrix && fld != c20Self {
-			continue
-		}
-		loop, _ := enclosingLoop(f, a.Stmt.Pos()).(*ast.ForStmt)
+	// the stores, made in place or through a setter method of the indexer (c20_access.go)
+	for _, cell := range c20Cells(f) {
+		fld := cell.Fld
+		a := struct {
+			Pt   core.Point
+			Stmt interface{ Pos() token.Pos }
+		}{cell.Pt, posNode(cell.Pos)}
+		loop, _ := enclosingLoop(f, cell.Pos).(*ast.ForStmt)
 		ctr, full := c20FullLoop(f, loop, func(e ast.Expr) bool { return c20IsValLen(f, e) })
 		c.Check(full && c20EveryIteration(f, loop, a.Pt) || fld == c20Self && full, "store into "+short(fld)+" for every validator", "T2 (loop) + normalised bound", a.Stmt.Pos(), "the store sits in for i := 0; i < validators.Len(); i++ (no break)", "not every validator's observation is recorded: rows keep sequence numbers of an older event of this creator")
-		okVal := a.RHS != nil && a.Tok == token.ASSIGN && c20SeqOfVec(f, a.RHS, a.Pt, ctr, isEventID)
+		okVal := cell.Val != nil && c20SeqOfVec(f, cell.Val, a.Pt, ctr, isEventID)
 		switch fld {
 		case c20Matrix:
 			nM++
-			// Row(x)[y]
-			row := isCallTo(f, c19Resolve(f, ix.X, a.Pt), c20Row)
-			okX := row != nil && len(row.Args) == 1 && ctr != nil && c20VarAt(f, row.Args[0]) == ctr
-			if okX {
-				sel, isSel := ast.Unparen(row.Fun).(*ast.SelectorExpr)
-				okX = isSel && c20RecvField(f, sel.X, c20Matrix)
+			// "latest processed event": every event handed to ProcessEvent overwrites its creator's column, so no
+			// return is reached without the complete store loop (an early exit that skips an event as stale,
+			// duplicate or uninteresting keeps the observations of an older event of that creator)
+			var done *cfg.Block
+			if full && loop != nil {
+				done, _ = loopDone(f, loop)
 			}
+			if done != nil {
+				for _, rp := range f.ReturnPoints() {
+					ok, w := mustPassBlockBefore(f, done, rp)
+					c.Check(ok, "every processed event is recorded", "T2 Dominates (loop exit)", posOf(rp), "the exit of the store loop over all validators dominates every return of ProcessEvent",
+						short(f.Name)+" can return without storing the event's observations (path "+f.DescribePath(w)+"): the creator's column keeps the observations of an earlier processed event, so the medians are not taken over the latest processed events")
+				}
+			}
+			// Row(x)[y]
+			okX := cell.RowArg != nil && ctr != nil && c20VarAt(f, cell.RowArg) == ctr
 			okY := false
-			if gi := isCallTo(f, c19Resolve(f, ix.Index, a.Pt), "inter/pos.Validators.GetIdx"); gi != nil && len(gi.Args) == 1 {
+			if gi := isCallTo(f, c19Resolve(f, cell.Index, a.Pt), "inter/pos.Validators.GetIdx"); gi != nil && len(gi.Args) == 1 {
 				if sel, isSel := ast.Unparen(gi.Fun).(*ast.SelectorExpr); isSel && c20RecvField(f, sel.X, c20Vals) {
 					if cr := isCallTo(f, c19Resolve(f, gi.Args[0], a.Pt), "inter/dag.Event.Creator"); cr != nil {
 						if cs, isSel := ast.Unparen(cr.Fun).(*ast.SelectorExpr); isSel && varOf(f, cs.X) == pEvent {
@@ -763,7 +779,7 @@ func c20Roles(c *core.Ctx) {
 			c.Check(okVal, "matrix cell is seqOf(vecClock(event).Get(x))", "provenance", a.Stmt.Pos(), "the stored value is the creator's merged highest-before of validator x, fork-mapped by seqOf", "the stored value is not seqOf(dagi.GetMergedHighestBefore(event.ID()).Get(x)) for the row's validator x")
 		case c20Self:
 			nS++
-			okX := ctr != nil && c20RecvField(f, ix.X, c20Self) && c20VarAt(f, ix.Index) == ctr
+			okX := ctr != nil && cell.SelfOK && c20VarAt(f, cell.Index) == ctr
 			c.Check(okX && okVal, "selfParentSeqs[x] is seqOf(vecClock(event).Get(x))", "provenance", a.Stmt.Pos(), "own observation of validator x", "selfParentSeqs is not updated with the event's observation of the same validator")
 			g, wit := f.GuardedBy(a.Pt, func(ft core.Fact) bool {
 				cm, ok := core.NormCmp(ft)
@@ -920,7 +936,7 @@ func c20IsNamed(p *core.Prog, t types.Type, name string) bool {
 }
 
 func c20Median(c *core.Ctx) {
-	rf := c.Fn(c20Recache)
+	rf := c20RecacheAnchor(c)
 	// The median of one subject validator is computed in the body of recacheState's loop over validators, or in
 	// a helper method that loop calls once per subject (h.medianOf(subject)). f is the function that holds the
 	// wmedian.Of call, subj the variable denoting the subject there (loop counter, or the helper's parameter
@@ -1081,11 +1097,10 @@ func c20Median(c *core.Ctx) {
 			fl := c20StructLitFields(f, cl)
 			// seq = Row(subject)[observer]: the element is read in f (the observer is f's fill index); the row may be
 			// computed in place, held in a local, or handed to the helper by recacheState
-			if sx, ok := c19Resolve(f, fl["seq"], fillStore.Pt).(*ast.IndexExpr); fl["seq"] != nil && ok {
-				if rfr, row := c20FrCall(fr, sx.X, c20Row); row != nil && len(row.Args) == 1 {
-					if sel, ok := ast.Unparen(row.Fun).(*ast.SelectorExpr); ok && c20FrRootField(rfr, sel.X, c20Matrix) {
-						okSeq = c20FrVarAt(rfr, row.Args[0], rctr) && c20VarAt(f, sx.Index) == obs
-					}
+			// (or read through a getter method of the indexer, c20_access.go)
+			if fl["seq"] != nil {
+				if rfr, rowArg, cfr, col, ok := c20FrCellRead(fr, fl["seq"], fillStore.Pt); ok {
+					okSeq = c20FrVarAt(rfr, rowArg, rctr) && c20FrVarIn(cfr, col, fr, obs)
 				}
 			}
 			if fl["weight"] != nil {
